@@ -421,6 +421,8 @@ def menu(world, vals, modes=MODES, max_list=4, with_copy=True, node_vals=True, r
           for mode in modes:
             ops.append((mode, 'reverse', ri, keys))
             ops.append((mode, 'sort', ri, keys))
+            if n >= 3:
+              ops.append((mode, 'sort_badkey', ri, keys))
         if n:
           for mode in modes:
             ops.append((mode, 'clear', ri, keys))
@@ -534,6 +536,10 @@ def _do(world, node, mode, kind, ri, keys, args):
     return node.reverse()
   if kind == 'sort':
     return node.sort(key=repr)
+  if kind == 'sort_badkey':
+    # a key function whose values stop being comparable half-way: the sort raises after it has moved elements
+    order = {id(e): k for e, k in zip(node.sym_values(), [1, 0, None, 2, None])}
+    return node.sort(key=lambda e: order.get(id(e)))
   if kind == 'remove0':
     return node.remove(node.sym_getattr(0))
   if kind == 'copyroot':
